@@ -28,7 +28,7 @@ RULE = ("Exhaustive product over 15 service types x interface multisets of size 
 ASSUMPTIONS = ["for service types with num_sites = NO_LIMIT the library does not trace sites: no site clause there",
                "num_instances is NO_LIMIT for every type (the clause exists in the predicate but is unreachable)",
                "implicit component / facility services of the built slice always satisfy their own constraints"]
-BUDGET = {"quick": 300, "thorough": 6000}
+BUDGET = {"quick": 300, "thorough": 3000}
 ENUM_EXHAUSTIVE = True
 ENUM_EXHAUSTIVE = False     # only the thorough tier enumerates the whole product
 EXHAUSTIVE_NOTE = ("thorough enumerates the full product incl. all 32 property subsets; quick enumerates the boundary "
@@ -136,6 +136,7 @@ def enumerate_cases(tier):
                                "mgmt": mgmt}
     yield from _rehome_cases()
     yield from _twin_cases()
+    yield from _owned_cases()
     for t in PINNED_SERVICE:
         for n in range(0, 5):
             if t == "PortMirror" and n != 1:
@@ -174,6 +175,20 @@ def _rehome_cases():
                                                     "props": [], "rehome": True}]}
 
 
+def _owned_cases():
+    """services created under a node (Node.add_network_service) with interfaces of other nodes connected: the sites
+    spanned are those of the connected interfaces, wherever the owning node is"""
+    for t in PINNED_SERVICE:
+        if t == "PortMirror":
+            continue
+        for n in (1, 2, 3):
+            for pl in _placements(n):
+                for owner in (0, 1, 2):
+                    for declared in (None, "match"):
+                        yield {"kind": "svc", "services": [{"type": t, "ifs": [["DedicatedPort", s] for s in pl],
+                                                            "declared": declared, "props": [], "owner": owner}]}
+
+
 def _twin_cases():
     """interfaces that end up with the SAME library-generated service-port name ('<node>-<interface>'): sub-interfaces
     of one name on different ports of one node. Counting must go by interface, not by name."""
@@ -195,6 +210,7 @@ def _multi(draw):
         svcs.append({"type": t, "late": 0 if t == "PortMirror" else draw(st.sampled_from([0, 0, 1, 2])),
                      "rehome": t != "PortMirror" and draw(st.integers(0, 3)) == 0,
                      "twins": draw(st.integers(0, 3)) == 0,
+                     "owner": None if t == "PortMirror" else draw(st.sampled_from([None, None, None, 0, 1, 2])),
                      "ifs": [[draw(st.sampled_from(KINDS)), draw(st.integers(0, 2))] for _ in range(n)],
                      "declared": draw(st.sampled_from([None, None, "match", "other"])),
                      "props": draw(st.lists(st.sampled_from(PROPS), unique=True, max_size=2))})
@@ -332,6 +348,9 @@ def run_case(case):
                     e = ERO()
                     e.set(payload=path)
                     kw[p] = e
+            own = None
+            if svc.get("owner") is not None and svc["type"] != "PortMirror":
+                own = t.add_node(name=f"own{si}", site=SITES[svc["owner"] % len(SITES)])
             before = it.snap()
             guard = svc["type"] == "L2PTP" and any(k == "SharedPort" for k, _ in svc["ifs"])
             late = min(int(svc.get("late") or 0), len(ifs))
@@ -353,9 +372,16 @@ def run_case(case):
                                                   from_interface_vlan=kw.get("mirror_vlan"), **extra)
                     if declared:
                         s.set_property("site", declared)
+                elif own is not None:
+                    # a service owned by a node of its own (at site 'owner'); the interfaces of OTHER nodes are
+                    # connected to it - the sites that count are those of the connected interfaces
+                    s = own.add_network_service(name=f"svc{si}", nstype=ServiceType[svc["type"]], interfaces=ifs,
+                                                site=declared, **kw)
+                    labels.add("node-owned-service")
                 else:
                     s = t.add_network_service(name=f"svc{si}", nstype=ServiceType[svc["type"]], interfaces=ifs,
                                               site=declared, **kw)
+                if svc["type"] != "PortMirror":
                     for pi_ in pre_ifs:
                         s.disconnect_interface(pi_)
                     for li in late_ifs:
